@@ -364,6 +364,16 @@ class C16Monitor(explore.Monitor):
       # a summary table whose SOURCE is itself a summary table (CreateViewSection on a summary
       # table's ref with group-by columns): accepted by the engine, not followed by renames
       return "%s:summary-of-a-summary-table" % clause.split(".", 1)[1]
+    if not detail.get("root") and not detail.get("isFormula"):
+      # a stored reference LIST whose members are the same but come back in another order
+      try:
+        import ast as _ast
+        b, a = _ast.literal_eval(detail.get("before", "")), _ast.literal_eval(detail.get("after", ""))
+        if isinstance(b, tuple) and isinstance(a, tuple) and b[:2] == ("l", "L") == a[:2] and \
+            b != a and sorted(map(repr, b[2:])) == sorted(map(repr, a[2:])):
+          return "%s:stored-reference-list-reordered" % clause.split(".", 1)[1]
+      except Exception:
+        pass
     return "%s:%s" % (clause.split(".", 1)[1], detail.get("root") or detail.get("kind"))
 
 
